@@ -12,21 +12,32 @@ import (
 
 // Solver is one long-lived SMT solver process spoken to over a pipe.
 type Solver struct {
-	Kind    string // "z3", "z3-new", "cvc5"
-	cmd     *exec.Cmd
-	in      io.WriteCloser
-	out     *bufio.Reader
-	Queries int
-	Sat     int
-	Unsat   int
-	Unknown int
-	Errors  int
-	Elapsed time.Duration
-	Log     io.Writer // optional transcript
-	timeout int
+	Kind       string // "z3", "z3-new", "cvc5"
+	cmd        *exec.Cmd
+	in         io.WriteCloser
+	lines      chan string
+	Restarts   int
+	Generation int // incremented on every (re)start: sessions must re-send definitions
+	Queries    int
+	Sat        int
+	Unsat      int
+	Unknown    int
+	Errors     int
+	Elapsed    time.Duration
+	Log        io.Writer // optional transcript
+	timeout    int
 }
 
 func Start(kind string, timeoutMs int) (*Solver, error) {
+	s := &Solver{Kind: kind, timeout: timeoutMs}
+	if err := s.spawn(); err != nil {
+		return nil, err
+	}
+	return s, nil
+}
+
+func (s *Solver) spawn() error {
+	kind, timeoutMs := s.Kind, s.timeout
 	var cmd *exec.Cmd
 	switch kind {
 	case "z3", "z3-new":
@@ -34,30 +45,58 @@ func Start(kind string, timeoutMs int) (*Solver, error) {
 	case "cvc5":
 		cmd = exec.Command("cvc5", "--incremental", "--lang=smt2", "--produce-models", fmt.Sprintf("--tlimit-per=%d", timeoutMs))
 	default:
-		return nil, fmt.Errorf("unknown solver %q", kind)
+		return fmt.Errorf("unknown solver %q", kind)
 	}
 	in, err := cmd.StdinPipe()
 	if err != nil {
-		return nil, err
+		return err
 	}
 	out, err := cmd.StdoutPipe()
 	if err != nil {
-		return nil, err
+		return err
 	}
 	cmd.Stderr = cmd.Stdout
 	if err := cmd.Start(); err != nil {
-		return nil, err
+		return err
 	}
-	s := &Solver{Kind: kind, cmd: cmd, in: in, out: bufio.NewReaderSize(out, 1<<16), timeout: timeoutMs}
+	s.cmd, s.in = cmd, in
+	s.Generation++
+	lines := make(chan string, 256)
+	s.lines = lines
+	go func() {
+		rd := bufio.NewReaderSize(out, 1<<16)
+		for {
+			line, err := rd.ReadString('\n')
+			if line != "" {
+				lines <- line
+			}
+			if err != nil {
+				close(lines)
+				return
+			}
+		}
+	}()
 	pre := "(set-option :produce-models true)\n"
 	if kind != "cvc5" {
 		pre += fmt.Sprintf("(set-option :timeout %d)\n", timeoutMs)
 	}
 	pre += "(set-logic ALL)\n"
 	if _, err := s.roundTrip(pre); err != nil {
-		return nil, err
+		return err
 	}
-	return s, nil
+	return nil
+}
+
+// ErrTimeout is returned when the solver did not answer within the hard
+// limit; the process has been killed and restarted (Generation changed).
+var ErrTimeout = fmt.Errorf("solver hard timeout")
+
+func (s *Solver) kill() {
+	if s.cmd != nil && s.cmd.Process != nil {
+		s.cmd.Process.Kill()
+		go s.cmd.Wait()
+	}
+	s.cmd = nil
 }
 
 func (s *Solver) Close() {
@@ -88,10 +127,22 @@ func (s *Solver) roundTrip(text string) ([]string, error) {
 		return nil, err
 	}
 	var lines []string
+	deadline := time.After(time.Duration(s.timeout)*time.Millisecond*2 + 5*time.Second)
 	for {
-		line, err := s.out.ReadString('\n')
-		if err != nil {
-			return lines, fmt.Errorf("solver %s died: %v (output so far: %q)", s.Kind, err, lines)
+		var line string
+		select {
+		case l, ok := <-s.lines:
+			if !ok {
+				return lines, fmt.Errorf("solver %s died (output so far: %q)", s.Kind, lines)
+			}
+			line = l
+		case <-deadline:
+			s.kill()
+			s.Restarts++
+			if err := s.spawn(); err != nil {
+				return lines, fmt.Errorf("solver restart failed: %v", err)
+			}
+			return lines, ErrTimeout
 		}
 		line = strings.TrimRight(line, "\r\n")
 		if strings.Contains(line, marker) {
@@ -155,6 +206,10 @@ func (s *Solver) Check(text string, vars []*Term) (Result, map[string]uint64, er
 	defer func() { s.Elapsed += time.Since(t0) }()
 	s.Queries++
 	lines, err := s.roundTrip(text + "(check-sat)\n")
+	if err == ErrTimeout {
+		s.Unknown++
+		return Unknown, nil, nil
+	}
 	if err != nil {
 		return Unknown, nil, err
 	}
